@@ -32,7 +32,16 @@ struct counted {
     counted(counted &&o) : v(o.v) { ++ctor; }
     ~counted() { ++dtor; }
 };
+// a payload whose construction from a negative int throws (inside future::set, after the promise was claimed)
+struct thrower {
+    int v;
+    thrower(int x) : v(x) { if (x < 0) throw std::runtime_error("negative"); }
+};
 template <typename T> struct P;
+template <> struct P<thrower> {
+    static int make(int v) { return v; }      // constructed in place from the int
+    static std::string show(thrower &v) { return "v:" + std::to_string(v.v); }
+};
 template <> struct P<int> {
     static int make(int v) { return v; }
     static std::string show(int &v) { return "v:" + std::to_string(v); }
@@ -144,6 +153,12 @@ struct Scn {
         } else if (a[1] == "exc") {
             auto sp = (*prom)(std::make_exception_ptr(test_exc(atoi(a[2].c_str()))));
             r = sp;
+        } else if (a[1] == "throwv") {
+            // the value's constructor throws inside set_value(): the call reports the exception, the future must not stay pending
+            if constexpr (std::is_same_v<T, thrower>) {
+                try { auto sp = (*prom)(-1); r = sp; }
+                catch (const std::runtime_error &) { log("ret t" + std::to_string(tid) + " threw"); return; }
+            } else { auto sp = (*prom)(drop); r = sp; }
         } else {
             auto sp = (*prom)(drop);
             r = sp;
@@ -221,6 +236,7 @@ static void run_case(const std::vector<std::string> &hdr, const std::vector<std:
     else if (T == "uptr") { Scn<std::unique_ptr<int>> s; s.assign_end = assign_end; s.run(threads, sched, destroy); }
     else if (T == "ref") { Scn<int &> s; s.assign_end = assign_end; s.run(threads, sched, destroy); }
     else if (T == "counted") { Scn<counted> s; s.assign_end = assign_end; s.run(threads, sched, destroy); }
+    else if (T == "thrower") { Scn<thrower> s; s.assign_end = assign_end; s.run(threads, sched, destroy); }
     S().log_line("end");
 }
 
